@@ -65,10 +65,12 @@ type ScenOpts struct {
 	Deterministic  bool   // only deterministic functions in templates
 	MaxNodes       int
 	MaxResumes     int
-	Batch          bool   // allow batch triggers
-	URNPolicy      string // "" random; "urns"/"none" force redaction policy
-	NoHostileTpl   bool   // only well-formed templates
-	OldSpec        bool   // store flows at spec 13.0 so that lazy migration runs
+	Batch          bool    // allow batch triggers
+	URNPolicy      string  // "" random; "urns"/"none" force redaction policy
+	NoHostileTpl   bool    // only well-formed templates
+	OldSpec        bool    // store flows at spec 13.0 so that lazy migration runs
+	RefreshP       float64 // probability that a resume carries a refreshed contact / environment (0 = default)
+	EnvSensitive   bool    // plant templates whose value depends on the environment
 }
 
 type scenGen struct {
@@ -255,8 +257,16 @@ var safeTemplates = []string{
 
 var webhookTemplates = []string{"@webhook", "@webhook.json", "@(json(webhook))", "@webhook.status", "@legacy_extra", "@(default(webhook.json.results[0].state, \"x\"))", "@results.webhook.extra"}
 
+var envSensitiveTemplates = []string{
+	"@(format_datetime(contact.created_on)) @(format_number(1234.5))", "@fields.joined @(format_date(fields.joined))", "@(format_time(contact.created_on)) @(1234.5)", "@(format(contact.created_on)) @(format(1234567.891))",
+	"@(format_datetime(\"2018-03-04T00:00:00Z\")) @(text(1.5))", "@(datetime(\"01-02-2018 10:30\"))", "@(format_number(fields.age, 2))", "@(default(contact.language, \"none\")) @(format_date(\"2018-01-02\"))", "@(tz(contact.created_on))",
+}
+
 func (g *scenGen) tpl() string {
 	r := g.r
+	if g.o.EnvSensitive && r.Chance(0.35) {
+		return fw.Pick(r, envSensitiveTemplates)
+	}
 	if !g.o.NoWebhookCtx && r.Chance(0.08) {
 		return fw.Pick(r, webhookTemplates)
 	}
@@ -1119,10 +1129,14 @@ func (g *scenGen) resumes() {
 			res["type"] = "dial"
 			res["dial"] = M{"status": fw.Pick(r, []string{"answered", "no_answer", "busy", "failed"}), "duration": r.Intn(100)}
 		}
-		if r.Chance(0.12) {
+		pc, pe := 0.12, 0.1
+		if g.o.RefreshP > 0 {
+			pc, pe = g.o.RefreshP, g.o.RefreshP
+		}
+		if r.Chance(pc) {
 			res["contact"] = g.contactRefresh(c)
 		}
-		if r.Chance(0.1) {
+		if r.Chance(pe) {
 			res["environment"] = g.env()
 		}
 		g.s.Resumes = append(g.s.Resumes, res)
